@@ -28,6 +28,7 @@ pub fn world() -> Hierarchy<Arc<Relation>> {
         ("id", DataType::integer_interval(0, 1000), Some(PK)), ("age", DataType::integer_interval(0, 100), None),
         ("city", DataType::text_values(["A".to_string(), "B".to_string(), "C".to_string()]), None), ("income", DataType::float_interval(0., 1000.), None),
         ("seg", DataType::text_values(["p".to_string(), "q".to_string()]), None),   // a second column with a declared finite value set
+        ("debt", DataType::integer_interval(-30, 0), None),   // a range that lies entirely on the negative side (its upper bound is 0)
     ].into_iter().collect::<qrlew::relation::Schema>()).size(1000).build();
     let orders: Relation = Relation::table().name("orders").schema(vec![
         ("id", DataType::integer_interval(0, 10000), Some(PK)), ("user_id", DataType::integer_interval(0, 1000), None),
@@ -81,10 +82,11 @@ pub const PROTECTED: [&str; 3] = ["users", "orders", "items"];
 /// (a derived table inside a set-operation operand makes the parser-to-relation visitor panic: C18 finding)
 fn gen_q(rng: &mut Rng, depth: u32, ctes: &mut Vec<String>) -> String {
     let body = if depth == 0 || rng.chance(1, 4) {
-        match rng.below(4) {
+        match rng.below(6) {
             0 => "SELECT id AS k, income AS v FROM users".to_string(),
             1 => "SELECT user_id AS k, amount AS v FROM orders".to_string(),
             2 => "SELECT pid AS k, price AS v FROM products".to_string(),
+            4 => "SELECT id AS k, debt AS v FROM users".to_string(),
             _ => "SELECT id AS k, age AS v FROM users".to_string(),
         }
     } else {
@@ -181,7 +183,8 @@ fn audit(rel: &Relation, noise_above: bool, reduce_below_noise: bool, path: &mut
             }
         }
         _ => {
-            let has_noise = match rel { Relation::Map(m) => m.projection().iter().chain(m.filter().iter()).any(|e| format!("{e}").contains("random")), _ => false };
+            // noise = a random draw scaled by a positive σ (σ · N(0,1) with σ = 0 is no noise); a random draw without a recognisable scale counts as noise
+            let has_noise = match rel { Relation::Map(m) => m.projection().iter().chain(m.filter().iter()).any(|e| format!("{e}").contains("random") && crate::ir::noise_sigma(e).map_or(true, |s| s > 0.0)), _ => false };
             let is_reduce = matches!(rel, Relation::Reduce(_));
             path.push(format!("{}{}", kind(rel), if has_noise { "(noise)" } else { "" }));
             for i in rel.inputs() {
